@@ -92,6 +92,7 @@ class C17(core.Check):
             'directories: split image == unsplit image == model image; (b) includer inside a named zone and a local region, '
             'included file starts in GLOBAL, includer continues zone and region; same file-label names in both files; cross-file '
             'file-label reference rejected; (c) negatives. distinct_nontrivial = distinct (nesting, #dirs, features, class) tuples.')
+    rule = rule + ' ' + 'Symbols spelled like a word of the include line (stem, extension, name part, directive word) come from all three sources.'
     assumptions = ('the metamorphic class excludes cuts where pasting and including legitimately differ (zone reset at include '
                    'start, fresh file scope, fresh local region)',)
     chunk = 600
